@@ -1123,6 +1123,9 @@ class Facts:
         self.fns = {}
         # helper functions that are not anchors of the rule set are inlined into their callers (vlib/inline.py)
         from . import inline as _inl
+        # std Option/Result combinators are expanded into the `match` they stand for (vlib/combinators.py)
+        from . import combinators as _cmb
+        self.expanded = _cmb.run(self.d['fns'])
         self.anchors = _inl.load_anchors()
         il = _inl.Inliner(self.d['fns'], self.anchors)
         self.d['fns'] = il.run()
